@@ -563,8 +563,19 @@ func (c *Ctx) addrOf(e ast.Expr, s *State) Value {
 			return IntV{r}
 		}
 	case *ast.IndexExpr:
-		c.eval(x.X, s)
-		c.eval(x.Index, s)
+		if st, ok := c.typeOf(x.X).Underlying().(*types.Slice); ok {
+			sv, isSl := c.eval(x.X, s).(SliceV)
+			i := asInt(c.eval(x.Index, s))
+			if isSl {
+				c.boundsCheck(s, x, i, sv.Len)
+				if c.freshRefs[sv.Ref] || c.freshRefs[innerRef(sv.Ref)] {
+					return c.elemPointer(s, sv, i, st.Elem())
+				}
+			}
+		} else {
+			c.eval(x.X, s)
+			c.eval(x.Index, s)
+		}
 	}
 	c.abstractNote(e.Pos(), "address-of "+c.text(e))
 	r := c.fresh("addr", sInt)
@@ -1460,4 +1471,66 @@ func (c *Ctx) isLenOf(e, of ast.Expr) bool {
 		return false
 	}
 	return c.text(call.Args[0]) == c.text(of)
+}
+
+// elemPointer models &s[i] for a slice allocated by the function itself. The element "moves" to an object of its own:
+// the pointer is eptr(array, index) (injective), its target is initialised from the element the first time the address is
+// taken, and the ghost map X.esc.<elem> records the escape. From then on the element must not be read or written through
+// the slice (obligation `elemptr` at every slice access in such a function): the two views are not kept in sync.
+func (c *Ctx) elemPointer(s *State, sv SliceV, idx string, elem types.Type) Value {
+	tk := typeKey(elem)
+	fn := sanitize("eptr." + tk)
+	if _, ok := c.decls[fn]; !ok {
+		c.declareFun(fn, 2, sInt)
+		c.declareFun(fn+".ref", 1, sInt)
+		c.declareFun(fn+".idx", 1, sInt)
+	}
+	pos := add(sv.Off, idx)
+	p := app(fn, sv.Ref, pos)
+	s.assume(lt("0", p))
+	// injectivity (as a quantified fact: invariants speak about eptr(a, k) for arbitrary k)
+	s.assume(fmt.Sprintf("(forall ((r Int) (k Int)) (! (and (= (%s (%s r k)) r) (= (%s (%s r k)) k)) :pattern ((%s r k))))", fn+".ref", fn, fn+".idx", fn, fn))
+	escKey := "X.esc." + memKey(elem)
+	esc := c.heapGet(s, escKey, sA2)
+	was := eq(sel(sel(esc, sv.Ref), pos), "1")
+	al := c.heapGet(s, "X.alloc", sA1)
+	s.assume(implies(not(was), eq(sel(al, p), "0")))
+	c.heapSetQuiet(s, "X.alloc", sA1, store(al, p, "1"))
+	c.freshRefs[p] = true
+	c.nfresh++
+	c.allocSeq[p] = c.nfresh
+	// the target starts as a copy of the element
+	if st, ok := elem.Underlying().(*types.Struct); ok {
+		for i := 0; i < st.NumFields(); i++ {
+			f := st.Field(i)
+			for _, l := range leaves(f.Type()) {
+				mk := memKey(elem) + "." + f.Name() + l
+				fk := "F." + tk + "." + f.Name() + l
+				m := c.heapGet(s, mk, sA2)
+				fa := c.heapGet(s, fk, sA1)
+				c.heapSet(s, fk, sA1, store(fa, p, ite(was, sel(fa, p), sel(sel(m, sv.Ref), pos))))
+			}
+		}
+	} else {
+		for _, l := range leaves(elem) {
+			mk := memKey(elem) + l
+			fk := "F.box$" + tk + ".v" + l
+			m := c.heapGet(s, mk, sA2)
+			fa := c.heapGet(s, fk, sA1)
+			c.heapSet(s, fk, sA1, store(fa, p, ite(was, sel(fa, p), sel(sel(m, sv.Ref), pos))))
+		}
+	}
+	c.heapSet(s, escKey, sA2, store(esc, sv.Ref, store(sel(esc, sv.Ref), pos, "1")))
+	c.note("pointers to elements of a slice allocated by the function (&s[i]): the element is modelled as an object of its own from then on; accesses to it through the slice are forbidden by an obligation, not modelled")
+	return IntV{p}
+}
+
+// elemEscapeCheck: in a function that takes addresses of elements of []elem, an element accessed through the slice must
+// not be one whose address has been taken.
+func (c *Ctx) elemEscapeCheck(s *State, sv SliceV, idx string, elem types.Type, what string) {
+	if !c.escTypes[memKey(elem)] || c.dry > 0 || c.inQuant > 0 {
+		return
+	}
+	esc := c.heapGet(s, "X.esc."+memKey(elem), sA2)
+	c.oblige(s, "elemptr", what, c.curPos, not(eq(sel(sel(esc, sv.Ref), add(sv.Off, idx)), "1")), nil)
 }
